@@ -541,6 +541,14 @@ func (c *wsConn) handleResponse(frame frame) {
 func (c *wsConn) handleCall(ctx context.Context, frame frame) {
 	if c.handler == nil {
 		log.Error("handleCall on client with no reverse handler")
+		if frame.ID != nil {
+			// a request for a method this side does not have, like any other
+			// unknown method: the peer is waiting for an answer
+			epoch := atomic.LoadUint64(&c.connEpoch)
+			rpcError(func(cb func(io.Writer)) { c.nextWriter(epoch, cb) },
+				&request{Jsonrpc: frame.Jsonrpc, ID: frame.ID, Method: frame.Method},
+				rpcMethodNotFound, fmt.Errorf("method '%s' not found", frame.Method))
+		}
 		return
 	}
 
